@@ -24,7 +24,7 @@ for ty in ("1", "4", "cl4", "cm2", "10,6,4", "h8,4,4"):
     configs.append(("saba", dict(type=ty)))
 for integ, opts in configs:
     for safe in (1, 0):
-        for split in ("all", "tp0", "tp1"):
+        for split in ("all", "tp0", "tp1", "var", "negdt"):
             n = rng.randint(3, 6)
             sim = rebound.Simulation()
             sim.add(m=1.0)
@@ -37,9 +37,19 @@ for integ, opts in configs:
             for k, v in opts.items():
                 setattr(ri, k, v)
             ri.safe_mode = safe
-            if split != "all":
+            if split in ("tp0", "tp1"):
                 sim.N_active = rng.randint(1, n - 1)
                 sim.testparticle_type = 1 if split == "tp1" else 0
+            if split == "negdt":
+                sim.dt = -0.05
+            if split == "var":
+                if integ != "whfast" or opts.get("coordinates") != "jacobi" or opts.get("kernel", "default") != "default":
+                    continue      # variations are only supported by WHFast in Jacobi coordinates with the default kernel
+                var = sim.add_variation()
+                for vp in var.particles:
+                    vp.x = rng.normal() * 1e-3; vp.vy = rng.normal() * 1e-3; vp.z = rng.normal() * 1e-3
+                if rng.chance(0.5):
+                    sim.init_megno()
             tr.rbv_trace_reset()
             try:
                 sim.steps(3)
@@ -79,13 +89,15 @@ def build(kind, integ, opts, d, u, rngs):
     for p in sim.particles:
         p.x += d[0]; p.y += d[1]; p.z += d[2]; p.vx += u[0]; p.vy += u[1]; p.vz += u[2]
     sim.integrator = integ
-    sim.dt = 0.03 if kind != "regular" else 0.05
+    sim.dt = (0.03 if kind != "regular" else 0.05) * (-1.0 if opts.get("_negdt") else 1.0)
+    opts = {k: v for k, v in opts.items() if not k.startswith("_")}
     ri = {"whfast": sim.ri_whfast, "saba": sim.ri_saba, "mercurius": sim.ri_mercurius, "trace": sim.ri_trace}.get(integ)
     for k, v in opts.items():
         setattr(ri, k, v)
     return sim
 cconfigs = [("whfast", dict(coordinates=c)) for c in ("jacobi", "democraticheliocentric", "whds", "barycentric")]
-cconfigs += [("whfast", dict(coordinates="jacobi", corrector=11, safe_mode=0)), ("saba", dict(type="4")), ("saba", dict(type="cl4")),
+cconfigs += [("whfast", dict(coordinates=c, _negdt=1)) for c in ("jacobi", "democraticheliocentric", "whds", "barycentric")]
+cconfigs += [("mercurius", dict(_negdt=1)), ("whfast", dict(coordinates="jacobi", corrector=11, safe_mode=0)), ("saba", dict(type="4")), ("saba", dict(type="cl4")),
              ("mercurius", {}), ("mercurius", dict(safe_mode=0)), ("trace", {}), ("trace", dict(peri_mode="PARTIAL_BS")), ("trace", dict(peri_mode="FULL_IAS15"))]
 for integ, opts in cconfigs:
     for kind in ("regular", "encounter", "approach", "eccentric"):
